@@ -224,7 +224,14 @@ def factor_path(I: Interp, ps: PathState) -> Dict[str, Any]:
         rec = RecDict()
         env.vars["factors"] = rec
         I.assign_target(loop.target, i, env)
-        I.exec_block(loop.body, env)
+        from pyvc.values import BreakEx, ContinueEx
+
+        try:
+            I.exec_block(loop.body, env)
+        except ContinueEx:
+            pass  # the rest of this iteration is skipped: whatever was recorded so far is the step's effect
+        except BreakEx:
+            ob("step/loop-does-not-stop-early", False, "break inside the divisor loop")
         divides = z3.IsInt(v / i.v)
         if rec.sets:
             ob("step/updates-only-when-i-divides-value", _valid(ps, divides), "table updated although i does not divide value")
